@@ -169,6 +169,11 @@ func errText(err error) string {
 	if err == nil {
 		return "<nil>"
 	}
+	if b, ok := err.(interface{ Bytes() []byte }); ok { // errors that can be sent to the client: what they encode to is part of the result
+		var enc []byte
+		mon.Catch(func() { enc = b.Bytes() })
+		return fmt.Sprintf("%T:%s:%x", err, err.Error(), enc)
+	}
 	return fmt.Sprintf("%T:%s", err, err.Error())
 }
 
@@ -186,6 +191,33 @@ func same(a, b result) string {
 		return "bytes"
 	}
 	return ""
+}
+
+// probe: an input whose results are remembered and re-evaluated after many other calls (results must depend on the input only).
+type probe struct {
+	in  []byte
+	res []string
+}
+
+func snapshot(in []byte) []string {
+	out := make([]string, len(entries))
+	for i := range entries {
+		ps := make([]byte, len(in))
+		copy(ps, in)
+		rs := call(&entries[i], ps)
+		out[i] = fmt.Sprintf("%v|%s|%v|%x", rs.panicked, errText(rs.err), rs.v, rs.bytes)
+	}
+	return out
+}
+
+func recheck(c *Case, r *mon.Rec, p *probe) {
+	now := snapshot(p.in)
+	r.Eval(len(entries))
+	for i := range entries {
+		if now[i] != p.res[i] {
+			r.Violate(c, "result-depends-on-earlier-calls", mon.Attrs{"entry": entries[i].Name}, fmt.Sprintf("input % x: first result %s, after other inputs had been parsed %s", head(p.in), p.res[i], now[i]))
+		}
+	}
 }
 
 // observe runs all entry points on one input.
@@ -279,9 +311,32 @@ func body(rng *rand.Rand, n int, style int, fc int) []byte {
 	return b
 }
 
+var probeInputs = [][]byte{
+	{0x00, 0x01, 0x00, 0x00, 0x00, 0x06, 0x01, 0x03, 0x00, 0x00, 0x00, 0x01}, // valid FC3 request
+	{0x12, 0x34, 0x00, 0x00, 0x00, 0x06, 0x09, 0x00, 0x00, 0x00, 0x00, 0x01}, // function code 0
+	{0x56, 0x78, 0x00, 0x01, 0x00, 0x06, 0x07, 0x03, 0x00, 0x00, 0x00, 0x01}, // protocol id 1
+	{0x9a, 0xbc, 0x00, 0x00, 0x00, 0x02, 0x05, 0x03},                         // length field 2
+	{0xde, 0xf0, 0x00, 0x00, 0x00, 0x06, 0x11, 0x2b, 0x00, 0x00, 0x00, 0x01}, // unsupported function 0x2b
+	{0x01, 0x02, 0x00, 0x00, 0x00, 0x03, 0x21, 0x83, 0x02},                   // exception response
+	{0x01, 0x83, 0x02, 0xc0, 0xf1},                                           // RTU exception
+	{0x01, 0x02, 0x00, 0x00, 0x00, 0x06, 0x01, 0x03, 0x00, 0x00, 0x00, 0x00}, // quantity 0
+}
+
 func run(ci any, r *mon.Rec) {
 	c := ci.(*Case)
 	rng := rand.New(rand.NewSource(c.Seed))
+	// history independence: the probes are evaluated before and after everything this case parses
+	var probes []*probe
+	if c.Kind != "census" {
+		for _, in := range probeInputs {
+			probes = append(probes, &probe{in: in, res: snapshot(in)})
+		}
+		defer func() {
+			for _, p := range probes {
+				recheck(c, r, p)
+			}
+		}()
+	}
 	switch c.Kind {
 	case "census":
 		r.Inconclusive("exported byte-consuming functions missing from the harness table: " + strings.Join(censusMissing, ","))
